@@ -4,8 +4,10 @@
 package simtime
 
 import (
+	"sync"
 	"time"
 
+	"verif/simchan"
 	"verif/simrt"
 )
 
@@ -64,4 +66,82 @@ func Sleep(d Duration) {
 		return
 	}
 	simrt.Sleep(int64(d))
+}
+
+// ---- timers (channel-based, on the simulated clock) ---------------------------------
+
+// Timer mirrors time.Timer with a simulated channel.
+type Timer struct {
+	C  *simchan.Chan[Time]
+	st *timerState
+	f  func()
+}
+
+// timerState is shared between the timer's task and Stop/Reset; the real mutex
+// is never contended (one task runs at a time) and gives the race detector the
+// edges a runtime timer has.
+type timerState struct {
+	mu             sync.Mutex
+	stopped, fired bool
+}
+
+func startTimer(d Duration, c *simchan.Chan[Time], f func()) *Timer {
+	st := &timerState{}
+	t := &Timer{C: c, st: st, f: f}
+	simrt.GoNamed("timer", func() {
+		if d > 0 {
+			simrt.Sleep(int64(d))
+		} else {
+			simrt.Yield(-40)
+		}
+		st.mu.Lock()
+		if st.stopped {
+			st.mu.Unlock()
+			return
+		}
+		st.fired = true
+		st.mu.Unlock()
+		if f != nil {
+			f()
+			return
+		}
+		// like the runtime: a timer channel has capacity 1 and the send never blocks
+		sel := simchan.NewSelect()
+		simchan.OnSend(sel, c, Unix(1_000_000_000+simrt.NowNs()/1e9, simrt.NowNs()%1e9).UTC())
+		sel.Wait(true)
+	})
+	return t
+}
+
+// After is time.After on the simulated clock.
+func After(d Duration) *simchan.Chan[Time] {
+	c := simchan.Make[Time](1)
+	startTimer(d, c, nil)
+	return c
+}
+
+// NewTimer is time.NewTimer.
+func NewTimer(d Duration) *Timer { return startTimer(d, simchan.Make[Time](1), nil) }
+
+// AfterFunc is time.AfterFunc: f runs in its own task after d.
+func AfterFunc(d Duration, f func()) *Timer { return startTimer(d, nil, f) }
+
+// Stop prevents the timer from firing; it reports whether it stopped it.
+func (t *Timer) Stop() bool {
+	simrt.Yield(-41)
+	t.st.mu.Lock()
+	defer t.st.mu.Unlock()
+	if t.st.fired || t.st.stopped {
+		return false
+	}
+	t.st.stopped = true
+	return true
+}
+
+// Reset re-arms the timer.
+func (t *Timer) Reset(d Duration) bool {
+	active := t.Stop()
+	nt := startTimer(d, t.C, t.f)
+	t.st = nt.st
+	return active
 }
